@@ -40,6 +40,8 @@ let handle (w : string list) : string =
         let (e, otc) = split_tc e0 in
         if mp && e = "TI" && not (calm s) then
           "REJECT at=" ^ string_of_int k ^ " event=TI time advanced while a thread could move (state not calm) now=" ^ string_of_int (int_of_z s.now)
+        else if mp && e = "TI" && not (blockedb cfg s) then
+          "REJECT at=" ^ string_of_int k ^ " event=TI time advanced although some thread of the model can take a step now=" ^ string_of_int (int_of_z s.now)
         else
         (match step cfg s (parse s e) with
          | Some s' ->
